@@ -58,7 +58,7 @@ def line_feat(line, cury):
 
 
 def cls(kind, feat):
-    return "%s|%s|%s|%s|%s%s|n=%s" % (kind, feat["form"], feat["lang"], feat["base"], feat.get("op", ""), feat.get("unit", ""), feat.get("n", ""))
+    return "%s|%s|%s|%s|%s%s|n=%s|tz=%s" % (kind, feat["form"], feat["lang"], feat["base"], feat.get("op", ""), feat.get("unit", ""), feat.get("n", ""), feat.get("deftz", "UTC"))
 
 
 def dur_word(n, u, lang, salt):
@@ -134,7 +134,16 @@ def run(rep):
     fakes = FAKE_DAYS[:1] if quick else FAKE_DAYS
     for d in fakes:
         items += gen_items(rep, epoch_days(d), "today", epoch_days(d) * 86400 + 43200, quick, d.isoformat())
-    forms.replay(rep, items, "c09.gen")
+    # the calendar date a line denotes, and the date that is printed, do not depend on the configured default zone
+    zoned = []
+    for zi, (zn, zo) in enumerate((("GMT-5", -300), ("GMT+5:30", 330), ("GMT-11:30", -690))):
+        for it in items[zi::(23 if quick else 7)]:
+            if it.get("today") is None:
+                z = dict(it)
+                z["cfg"] = render.cfg_with(tz=zn, tz_off=zo)
+                z["feat"] = dict(it["feat"], deftz=zn)
+                zoned.append(z)
+    forms.replay(rep, items + zoned, "c09.gen")
     random_trace(rep, 3000 if quick else 40000)
 
 
@@ -168,5 +177,6 @@ def random_trace(rep, n):
         if not rs:
             continue
         var, text = rs[rng.randrange(len(rs))]
-        items.append({"line": line, "text": text, "cfg": CFG, "lang": lang, "variant": "random", "feat": line_feat(line, cury), "class_fn": cls})
+        cfg = CFG if rng.random() < 0.6 else render.cfg_with(**dict(zip(("tz", "tz_off"), rng.choice([("GMT-5", -300), ("GMT+5:30", 330), ("GMT-11:30", -690), ("CET", 60)]))))
+        items.append({"line": line, "text": text, "cfg": cfg, "lang": lang, "variant": "random", "feat": dict(line_feat(line, cury), deftz=cfg["tz"]), "class_fn": cls})
     forms.trace(rep, items, "c09.rand")
